@@ -274,7 +274,6 @@ int main(int argc, char **argv)
 		vx_count("scenarios", 1);
 		if (cfgs[i].bound < 0) vx_count("scenarios_all_interleavings", 1); else vx_count("scenarios_deviation_bounded", 1);
 		vx_count("states", st.states); vx_count("transitions", st.steps + st.interrupts_injected); vx_count("traces", st.executions);
-		vx_count("distinct", st.states);
 		vx_count("executions", st.executions); vx_count("executions_completed", st.completed); vx_count("executions_pruned_at_visited_state", st.pruned);
 		vx_count("atomic_operations_executed", st.atomic_ops); vx_count("plain_accesses_checked", st.plain_accesses);
 		vx_count("interrupts_injected", st.interrupts_injected); vx_count("preemptions", st.preemptions); vx_count("spin_blocks", st.spin_blocks);
